@@ -182,6 +182,10 @@ func (b *baseExecutor) buildRecordImages(rowsi driver.Rows, tableMetaData *types
 		}
 		rowImages = append(rowImages, types.RowImage{Columns: columns})
 	}
+	// Next also ends the loop when reading fails: a truncated result must not become the image
+	if err := sqlRows.Err(); err != nil {
+		return nil, err
+	}
 
 	return &types.RecordImage{TableName: tableMetaData.TableName, Rows: rowImages, SQLType: sqlType}, nil
 }
